@@ -3,5 +3,7 @@
 #include "aldorio"
 import from Machine;
 import from MachineInteger, Integer;
-C: BInt := (-123456789)::Integer::BInt;
-stdout << (shiftDown(C, 3::SInt)::Integer) << " " << (shiftDown((-8)::Integer::BInt, 3::SInt)::Integer) << " " << (shiftDown((-1)::Integer::BInt, 1::SInt)::Integer) << newline;
+b(a: BInt): Integer == a::Integer;
+big(n: Integer): BInt == n::BInt;
+three: SInt := 3::SInt;
+stdout << b shiftDown(big(-123456789), three) << " " << b shiftDown(big(-8), three) << " " << b shiftDown(big(-1), three) << newline;
